@@ -43,25 +43,37 @@ def check(ctx):
         raise AnalysisError('Maintainer: the helper that records work-order datapoints was not found')
     g = ctx.graph(M, 'create_work_order', boolean=True, opaque=('_is_work_order_requested', 'try_working_requests', RH[0]))
     fn = P.method(M, 'create_work_order')[1]
-    dup = [n for n in g.nodes.values() if n.kind == 'cond' and isinstance(n.ast, ast.Call) and call_attr(n.ast) == '_is_work_order_requested']
+    dup = [(n, cl) for n in g.nodes.values() for cl in calls_at(g, n) if call_attr(cl) == '_is_work_order_requested']
     o.count()
     params = [a.arg for a in fn.args.args][1:]
-    def _dup_args(c_):
+    def _dup_args(c_, frame):
         b_ = dv.bind_method_call(P, M, c_) or {}
-        return [ast.unparse(v) for v in b_.values()]
-    if len(dup) != 1 or _dup_args(dup[0].ast) != params[:2]:
+        return [dv.canon_text(v, frame) for v in b_.values()]
+    if len(dup) != 1 or _dup_args(dup[0][1], dup[0][0].frame) != params[:2]:
         o.fail(P, 'Maintainer.create_work_order', 'if self._is_work_order_requested(target, tag): return False', 'the duplicate test on (target, tag) is missing or tests something else',
                file=M.mod.path, line=fn.lineno)
     else:
-        d = dup[0]
+        d = dup[0][0]
         o.witness('dup-test')
-        tr = g.reach([m for l, m in g.succ[d.id] if l == 'T'], follow=lambda l: l != 'exc')
-        fr = g.reach([m for l, m in g.succ[d.id] if l == 'F'], follow=lambda l: l != 'exc')
+        # the answer of the duplicate test is a ghost: for both values the operation is explored to its true / false exits (the test may be
+        # used directly as a condition, negated, or kept in a local)
+        def effect_hook(an_, n, before, after):
+            st = after
+            if n is d:
+                st = st.with_flag('tested')
+            elif n.kind == 'stmt' and 'tested' in st.flags and any(call_attr(c_) != '_is_work_order_requested' for c_ in calls_at(g, n)):
+                st = st.with_flag('effect')       # anything done after the test has answered "duplicate"
+            return st
+        and_ = Analysis(P, g, ['#dup'], call_models={'_is_work_order_requested': lambda call, st, frame: st.fields.get('#dup', TOP)})
+        and_.node_hooks.append(effect_hook)
         o.count(2)
-        if g.exitT in tr or any(g.nodes[i].kind == 'stmt' and calls_at(g, g.nodes[i]) for i in tr):
-            o.fail(P, 'Maintainer.create_work_order', None, 'a duplicate request is not simply rejected (returns True or has effects)', node=d)
-        if g.exitF in fr:
-            o.fail(P, 'Maintainer.create_work_order', None, 'a new request can be rejected although it is not a duplicate', node=d)
+        for dv_ in 'TF':
+            resd = ctx.explore(and_, [State({'#dup': dv_})])
+            yes, no = resd.at(g.exitT), resd.at(g.exitF)
+            if dv_ == 'T' and (yes or any('effect' in s_.flags for s_ in no)):
+                o.fail(P, 'Maintainer.create_work_order', None, 'a duplicate request is not simply rejected (returns True or has effects)', node=d)
+            if dv_ == 'F' and no:
+                o.fail(P, 'Maintainer.create_work_order', None, 'a new request can be rejected although it is not a duplicate', node=d)
 
         def hook(an, n, before, after):
             st = after
@@ -77,9 +89,9 @@ def check(ctx):
                 if nm == 'try_working_requests':
                     st = st.with_flag('scan-after-queue' if any(f.startswith('queued:') for f in st.flags) else 'scan-before-queue')
             return st
-        an = Analysis(P, g, [])
+        an = Analysis(P, g, ['#dup'], call_models={'_is_work_order_requested': lambda call, st, frame: st.fields.get('#dup', TOP)})
         an.node_hooks.append(hook)
-        res = ctx.explore(an, [State({})])
+        res = ctx.explore(an, [State({'#dup': 'F'})])
         defs = single_defs(fn)
         for st in res.at(g.exitT):
             o.count()
